@@ -292,7 +292,7 @@ func TestC09Aggregate(t *testing.T) {
 			// ... as a plain error, as the typed error an HTTP client reports for a 5xx answer, or as a timeout
 			faultErr := []error{nil, &eth2api.Error{Method: "GET", Endpoint: "/eth/v1/config/spec", StatusCode: 503, Data: []byte("service unavailable")},
 				&eth2api.Error{Method: "GET", Endpoint: "/eth/v1/config/spec", StatusCode: 500, Data: []byte("internal error")}, fmt.Errorf("spec: %w", context.DeadlineExceeded)}[rapid.IntRange(0, 3).Draw(rt, "faultKind")]
-			faultAt := rapid.SampledFrom([]string{"spec", "domain"}).Draw(rt, "faultAt")
+			faultAt := rapid.SampledFrom([]string{"spec", "domain", "domain", "genesis_domain"}).Draw(rt, "faultAt")
 			if faultErr == nil {
 				bn.Fail(faultAt, specFaults)
 			} else {
@@ -302,6 +302,7 @@ func TestC09Aggregate(t *testing.T) {
 		err = agg.Aggregate(ctx, duty, input)
 		bn.Fail("spec", 0)
 		bn.Fail("domain", 0)
+		bn.Fail("genesis_domain", 0)
 		if corruption == "none" && specFaults > 0 && err != nil {
 			if len(got) != 0 {
 				rt.Fatalf("SUBSCRIBER CALLED DESPITE ERROR: %s: %d subscriber calls although Aggregate returned %v (transient beacon fault)", k.Name, len(got), err)
